@@ -122,9 +122,16 @@ impl<'w, 's> Readers<'w, 's>
     }
 }
 
+/// Never attached to anything: `Populated<_, With<PopMarker>>` is a parameter whose `validate_param` says "no" (the query is
+/// empty) while `get_param` works. Bevy's schedule executors would skip such a system; the library's runners and the syscall
+/// family promise to *run* their target, and do (they never ask).
+#[derive(Component)]
+pub struct PopMarker;
+
 #[derive(SystemParam)]
 pub struct PlainParams<'w, 's>
 {
+    _pop: Populated<'w, 's, Entity, With<PopMarker>>,
     pub tick: Res<'w, TickProbe>,
     c: Commands<'w, 's>,
     h: ResMut<'w, H>,
